@@ -29,10 +29,24 @@
 (*   dispatchers  Load the slice once (Go range evaluates it once), then     *)
 (*                visit cell 1..len one step at a time                       *)
 (*                                                                           *)
+(*                                                                           *)
+(* The whole table: the routes (the list modelled cell by cell above) and    *)
+(* the front end fe = [bl, rw, agg] (blacklist, rewriters, aggregators:      *)
+(* abstract sequences, see TableOps) are ONE configuration value: an admin   *)
+(* operation Loads the value, changes one list and Stores the value; a       *)
+(* dispatcher Loads the value ONCE, runs the metric through the front end of *)
+(* that value (DFront: dropped by the blacklist / consumed by an aggregator  *)
+(* / rewritten) and then through the routes of that same value.              *)
+(*   LoadTwice (deviation): the route loop loads the configuration again --  *)
+(*   front end of one version, routes of a later one.  One change in between *)
+(*   cannot be told from "wholly before / wholly after"; two changes (front  *)
+(*   end first, then routes) give an outcome no version of the table has.    *)
+(*                                                                           *)
 (* Ghost variables: vers (the abstract list after every change, by the       *)
 (* sequential semantics of TableOps), pub (every slice ever published with   *)
 (* the cells it had when it was published), what each dispatcher's snapshot  *)
-(* held when it was loaded, the admin results.                               *)
+(* held when it was loaded, the admin results; fvers[j] = the front end of   *)
+(* version j (vers[j] and fvers[j] together are version j of the table).     *)
 EXTENDS TableOps, FiniteSets, TLC
 
 CONSTANTS InitN,         \* entries 1..InitN in the initial table
@@ -45,6 +59,9 @@ CONSTANTS InitN,         \* entries 1..InitN in the initial table
           DeleteInPlace, \* TRUE = deviation: the pinned delete
           TruncateTail,  \* TRUE = deviation: deleting the last entry publishes s[:n-1] (capacity not capped)
           UseMutex,      \* FALSE = deviation: admin operations do not lock
+          FeKinds,       \* front-end operations: subset of {"bl+","bl-","rw+","rw-","agg+","agg-"}
+          FeBl, FeRw, FeAgg, \* number of (inert) blacklist / rewriter / aggregator entries in the initial table
+          LoadTwice,     \* TRUE = deviation: Dispatch loads the configuration a second time for the route loop
           CoarseAdmin    \* TRUE = restriction to the schedules of level A (TableSched, the replay): dispatchers
                          \* take steps only between complete admin operations
 
@@ -54,16 +71,20 @@ Disp  == 1..NDisp
 Admin == 1..NAdmin
 MaxId == InitN + MaxOps
 Filters == {0} \cup Classes
-NoOp == [op |-> "none", e |-> 0, f |-> 0, i |-> 0, k |-> 0]
+NoOp == [l |-> "main", op |-> "none", e |-> 0, f |-> 0, i |-> 0, k |-> 0]
+FeLists == {"bl", "rw", "agg"}
+InitFe == [bl  |-> [i \in 1..FeBl  |-> [id |-> 100 + i, f |-> 0]],
+           rw  |-> [i \in 1..FeRw  |-> [id |-> 200 + i, f |-> 0]],
+           agg |-> [i \in 1..FeAgg |-> [id |-> 300 + i, f |-> 0]]]
 
-VARIABLES heap, tbl, flt, mutex, nops, nextId,
-          apc, aop, aloc, anew, ak,
-          dpc, dsnap, didx, dvis, dcls,
-          vers, pub, dcont, dlo, dhi, results
-vars == <<heap, tbl, flt, mutex, nops, nextId, apc, aop, aloc, anew, ak,
-          dpc, dsnap, didx, dvis, dcls, vers, pub, dcont, dlo, dhi, results>>
-avars == <<apc, aop, aloc, anew, ak>>
-dvars == <<dpc, dsnap, didx, dvis, dcls, dcont, dlo, dhi>>
+VARIABLES heap, tbl, fe, flt, mutex, nops, nextId,
+          apc, aop, aloc, anew, ak, afe,
+          dpc, dsnap, dfe, didx, dvis, dcls, dfate, dname,
+          vers, fvers, pub, dcont, dlo, dhi, results
+vars == <<heap, tbl, fe, flt, mutex, nops, nextId, apc, aop, aloc, anew, ak, afe,
+          dpc, dsnap, dfe, didx, dvis, dcls, dfate, dname, vers, fvers, pub, dcont, dlo, dhi, results>>
+avars == <<apc, aop, aloc, anew, ak, afe>>
+dvars == <<dpc, dsnap, dfe, didx, dvis, dcls, dfate, dname, dcont, dlo, dhi>>
 
 Cells(sl) == [i \in 1..sl[2] |-> heap[sl[1]][i]]
 Content(sl) == [i \in 1..sl[2] |-> [id |-> heap[sl[1]][i], f |-> flt[heap[sl[1]][i]]]]
@@ -72,14 +93,16 @@ Max(a, b) == IF a > b THEN a ELSE b
 
 Init ==
   /\ heap = << [i \in 1..InitCap |-> IF i <= InitN THEN i ELSE 0] >>
-  /\ tbl = <<1, InitN, InitCap>>
+  /\ tbl = <<1, InitN, InitCap>> /\ fe = InitFe
   /\ flt = [e \in 1..MaxId |-> 0]
   /\ mutex = 0 /\ nops = 0 /\ nextId = InitN + 1
   /\ apc = [a \in Admin |-> "idle"] /\ aop = [a \in Admin |-> NoOp]
   /\ aloc = [a \in Admin |-> <<1, 0, 0>>] /\ anew = [a \in Admin |-> <<1, 0, 0>>] /\ ak = [a \in Admin |-> 0]
+  /\ afe = [a \in Admin |-> InitFe]
   /\ dpc = [d \in Disp |-> "idle"] /\ dsnap = [d \in Disp |-> <<1, 0, 0>>] /\ didx = [d \in Disp |-> 0]
   /\ dvis = [d \in Disp |-> <<>>] /\ dcls = [d \in Disp |-> 0]
-  /\ vers = << [i \in 1..InitN |-> [id |-> i, f |-> 0]] >>
+  /\ dfe = [d \in Disp |-> InitFe] /\ dfate = [d \in Disp |-> ""] /\ dname = [d \in Disp |-> <<>>]
+  /\ vers = << [i \in 1..InitN |-> [id |-> i, f |-> 0]] >> /\ fvers = <<InitFe>>
   /\ pub = << [sl |-> <<1, InitN, InitCap>>, cells |-> [i \in 1..InitN |-> i]] >>
   /\ dcont = [d \in Disp |-> <<>>] /\ dlo = [d \in Disp |-> 0] /\ dhi = [d \in Disp |-> 0]
   /\ results = {}
@@ -88,11 +111,20 @@ Init ==
 (* admin operations *)
 KeysNow == {KeyOf(e) : e \in 1..(nextId - 1)}
 OpChoices ==
-  (IF "add" \in OpKinds THEN {[op |-> "add", e |-> nextId, f |-> f, i |-> 0, k |-> 0] : f \in Filters} ELSE {})
-  \cup (IF "delidx" \in OpKinds THEN {[op |-> "delidx", e |-> 0, f |-> 0, i |-> i, k |-> 0] : i \in 0..tbl[2]} ELSE {})
-  \cup (IF "delkey" \in OpKinds THEN {[op |-> "delkey", e |-> 0, f |-> 0, i |-> 0, k |-> k] : k \in KeysNow} ELSE {})
-  \cup (IF "updidx" \in OpKinds THEN {[op |-> "updidx", e |-> 0, f |-> f, i |-> i, k |-> 0] : i \in 0..tbl[2], f \in Filters} ELSE {})
-  \cup (IF "updkey" \in OpKinds THEN {[op |-> "updkey", e |-> 0, f |-> f, i |-> 0, k |-> k] : k \in KeysNow, f \in Filters} ELSE {})
+  (IF "add" \in OpKinds THEN {[l |-> "main", op |-> "add", e |-> nextId, f |-> f, i |-> 0, k |-> 0] : f \in Filters} ELSE {})
+  \cup (IF "delidx" \in OpKinds THEN {[l |-> "main", op |-> "delidx", e |-> 0, f |-> 0, i |-> i, k |-> 0] : i \in 0..tbl[2]} ELSE {})
+  \cup (IF "delkey" \in OpKinds THEN {[l |-> "main", op |-> "delkey", e |-> 0, f |-> 0, i |-> 0, k |-> k] : k \in KeysNow} ELSE {})
+  \cup (IF "updidx" \in OpKinds THEN {[l |-> "main", op |-> "updidx", e |-> 0, f |-> f, i |-> i, k |-> 0] : i \in 0..tbl[2], f \in Filters} ELSE {})
+  \cup (IF "updkey" \in OpKinds THEN {[l |-> "main", op |-> "updkey", e |-> 0, f |-> f, i |-> 0, k |-> k] : k \in KeysNow, f \in Filters} ELSE {})
+
+\* front-end operations (blacklist / aggregator entries added here hit one class; rewriters apply to every metric)
+FeChoices ==
+  UNION { (IF (x \o "+") \in FeKinds
+           THEN {[l |-> x, op |-> "add", e |-> nextId, f |-> f, i |-> 0, k |-> 0] : f \in (IF x = "rw" THEN {0} ELSE Classes)}
+           ELSE {})
+          \cup (IF (x \o "-") \in FeKinds
+                THEN {[l |-> x, op |-> "delidx", e |-> 0, f |-> 0, i |-> i, k |-> 0] : i \in 0..Len(fe[x])}
+                ELSE {}) : x \in FeLists }
 
 IsUpd(o) == o.op \in {"updidx", "updkey"}
 
@@ -105,8 +137,8 @@ ABegin(a, o) ==
   /\ nextId' = IF o.op = "add" THEN nextId + 1 ELSE nextId
   /\ flt' = IF o.op = "add" THEN [flt EXCEPT ![o.e] = o.f] ELSE flt   \* the new object is built before it is published
   /\ apc' = [apc EXCEPT ![a] = "work"] /\ aop' = [aop EXCEPT ![a] = o]
-  /\ aloc' = [aloc EXCEPT ![a] = tbl]
-  /\ UNCHANGED <<heap, tbl, anew, ak, vers, pub, results>> /\ UNCHANGED dvars
+  /\ aloc' = [aloc EXCEPT ![a] = tbl] /\ afe' = [afe EXCEPT ![a] = fe]      \* conf := Load(): all lists
+  /\ UNCHANGED <<heap, tbl, fe, anew, ak, vers, fvers, pub, results>> /\ UNCHANGED dvars
 
 \* 1-based target cell of a delete, 0 = none (error / unknown key)
 Target(a) ==
@@ -146,7 +178,7 @@ AWork(a) ==
            /\ anew' = [anew EXCEPT ![a] = <<Len(heap) + 1, n - 1, nc>>]
            /\ apc' = [apc EXCEPT ![a] = "store"]
            /\ UNCHANGED <<mutex, ak, results>>
-  /\ UNCHANGED <<tbl, flt, nops, nextId, aop, aloc, vers, pub>> /\ UNCHANGED dvars
+  /\ UNCHANGED <<tbl, fe, afe, flt, nops, nextId, aop, aloc, vers, fvers, pub>> /\ UNCHANGED dvars
 
 \* memmove of append(s[:i], s[i+1:]...) inside the shared array, one cell per step
 AShift(a) ==
@@ -159,17 +191,44 @@ AShift(a) ==
      ELSE /\ anew' = [anew EXCEPT ![a] = <<s[1], n - 1, s[3]>>]
           /\ apc' = [apc EXCEPT ![a] = "store"]
           /\ UNCHANGED <<heap, ak>>
-  /\ UNCHANGED <<tbl, flt, mutex, nops, nextId, aop, aloc, vers, pub, results>> /\ UNCHANGED dvars
+  /\ UNCHANGED <<tbl, fe, afe, flt, mutex, nops, nextId, aop, aloc, vers, fvers, pub, results>> /\ UNCHANGED dvars
 
 AStore(a) ==
   /\ apc[a] = "store"
-  /\ tbl' = anew[a]
-  /\ vers' = Append(vers, ApplyOp(vers[Len(vers)], aop[a]))
+  /\ tbl' = anew[a] /\ fe' = afe[a]                     \* Store(conf): the whole value, front end as loaded
+  /\ vers' = Append(vers, ApplyOp(vers[Len(vers)], aop[a])) /\ fvers' = Append(fvers, fvers[Len(fvers)])
   /\ pub' = Append(pub, [sl |-> anew[a], cells |-> Cells(anew[a])])
   /\ results' = results \cup {[op |-> aop[a], v |-> Len(vers), err |-> FALSE]}
   /\ mutex' = IF UseMutex THEN 0 ELSE mutex
   /\ apc' = [apc EXCEPT ![a] = "idle"]
-  /\ UNCHANGED <<heap, flt, nops, nextId, aop, aloc, anew, ak>> /\ UNCHANGED dvars
+  /\ UNCHANGED <<heap, flt, nops, nextId, aop, aloc, anew, ak, afe>> /\ UNCHANGED dvars
+
+\* a front-end operation: Lock, Load, change one of blacklist / rewriters / aggregators, Store (the routes as loaded)
+AFeBegin(a, o) ==
+  /\ apc[a] = "idle" /\ nops < MaxOps
+  /\ (UseMutex => mutex = 0)
+  /\ nops' = nops + 1
+  /\ nextId' = IF o.op = "add" THEN nextId + 1 ELSE nextId
+  /\ aop' = [aop EXCEPT ![a] = o]
+  /\ IF OpErr(fe[o.l], o)
+     THEN /\ results' = results \cup {[op |-> o, v |-> Len(vers), err |-> TRUE]}
+          /\ UNCHANGED <<mutex, apc, aloc, afe>>
+     ELSE /\ mutex' = IF UseMutex THEN a ELSE mutex
+          /\ apc' = [apc EXCEPT ![a] = "festore"]
+          /\ aloc' = [aloc EXCEPT ![a] = tbl]
+          /\ afe' = [afe EXCEPT ![a] = [fe EXCEPT ![o.l] = ApplyOp(@, o)]]
+          /\ UNCHANGED results
+  /\ UNCHANGED <<heap, tbl, fe, flt, anew, ak, vers, fvers, pub>> /\ UNCHANGED dvars
+
+AFeStore(a) ==
+  /\ apc[a] = "festore"
+  /\ tbl' = aloc[a] /\ fe' = afe[a]
+  /\ vers' = Append(vers, vers[Len(vers)])
+  /\ fvers' = Append(fvers, [fvers[Len(fvers)] EXCEPT ![aop[a].l] = ApplyOp(@, aop[a])])
+  /\ results' = results \cup {[op |-> aop[a], v |-> Len(vers), err |-> FALSE]}
+  /\ mutex' = IF UseMutex THEN 0 ELSE mutex
+  /\ apc' = [apc EXCEPT ![a] = "idle"]
+  /\ UNCHANGED <<heap, flt, nops, nextId, aop, aloc, anew, ak, afe, pub>> /\ UNCHANGED dvars
 
 \* filter change: GetRoute (plain Load) + atomic swap inside the entry object
 AUpd(a, o) ==
@@ -181,11 +240,11 @@ AUpd(a, o) ==
                    THEN CHOOSE i \in 1..tbl[2] : KeyOf(c[i]) = o.k /\ \A j \in 1..(i - 1) : KeyOf(c[j]) # o.k
                    ELSE 0 IN
      IF t = 0 THEN /\ results' = results \cup {[op |-> o, v |-> Len(vers), err |-> TRUE]}
-                   /\ UNCHANGED <<flt, vers>>
+                   /\ UNCHANGED <<flt, vers, fvers>>
      ELSE /\ flt' = [flt EXCEPT ![c[t]] = o.f]
-          /\ vers' = Append(vers, ApplyOp(vers[Len(vers)], o))
+          /\ vers' = Append(vers, ApplyOp(vers[Len(vers)], o)) /\ fvers' = Append(fvers, fvers[Len(fvers)])
           /\ results' = results \cup {[op |-> o, v |-> Len(vers), err |-> FALSE]}
-  /\ UNCHANGED <<heap, tbl, mutex, nextId, pub>> /\ UNCHANGED avars /\ UNCHANGED dvars
+  /\ UNCHANGED <<heap, tbl, fe, mutex, nextId, pub>> /\ UNCHANGED avars /\ UNCHANGED dvars
 
 -----------------------------------------------------------------------------
 (* dispatchers *)
@@ -193,27 +252,47 @@ Quiet == CoarseAdmin => \A a \in Admin : apc[a] = "idle"
 
 DLoad(d, c) ==
   /\ dpc[d] = "idle" /\ Quiet
-  /\ dpc' = [dpc EXCEPT ![d] = "run"] /\ dsnap' = [dsnap EXCEPT ![d] = tbl]
+  /\ dpc' = [dpc EXCEPT ![d] = "front"] /\ dsnap' = [dsnap EXCEPT ![d] = tbl] /\ dfe' = [dfe EXCEPT ![d] = fe]
   /\ didx' = [didx EXCEPT ![d] = 0] /\ dvis' = [dvis EXCEPT ![d] = <<>>] /\ dcls' = [dcls EXCEPT ![d] = c]
   /\ dcont' = [dcont EXCEPT ![d] = Cells(tbl)] /\ dlo' = [dlo EXCEPT ![d] = Len(vers)]
-  /\ UNCHANGED <<heap, tbl, flt, mutex, nops, nextId, vers, pub, dhi, results>> /\ UNCHANGED avars
+  /\ UNCHANGED <<heap, tbl, fe, flt, mutex, nops, nextId, vers, fvers, pub, dhi, dfate, dname, results>> /\ UNCHANGED avars
+
+\* blacklist, rewriters, aggregators of the loaded value; then on to its routes
+\* (LoadTwice: the routes are those of the value that is current NOW)
+DFront(d) ==
+  /\ dpc[d] = "front" /\ Quiet
+  /\ LET ft == FateOf(dfe[d], dcls[d]) IN
+     /\ dfate' = [dfate EXCEPT ![d] = ft]
+     /\ dname' = [dname EXCEPT ![d] = Ids(dfe[d].rw)]
+     /\ IF ft = "routed"
+        THEN /\ dpc' = [dpc EXCEPT ![d] = "run"]
+             /\ IF LoadTwice
+                THEN dsnap' = [dsnap EXCEPT ![d] = tbl] /\ dcont' = [dcont EXCEPT ![d] = Cells(tbl)]
+                ELSE UNCHANGED <<dsnap, dcont>>
+             /\ UNCHANGED dhi
+        ELSE /\ dpc' = [dpc EXCEPT ![d] = "done"] /\ dhi' = [dhi EXCEPT ![d] = Len(vers)]
+             /\ UNCHANGED <<dsnap, dcont>>
+  /\ UNCHANGED <<heap, tbl, fe, flt, mutex, nops, nextId, vers, fvers, pub, dfe, didx, dvis, dcls, dlo, results>> /\ UNCHANGED avars
 
 DVisit(d) ==
   /\ dpc[d] = "run" /\ didx[d] < dsnap[d][2] /\ Quiet
   /\ LET e == heap[dsnap[d][1]][didx[d] + 1] IN
        dvis' = [dvis EXCEPT ![d] = IF Accepts(flt[e], dcls[d]) THEN Append(@, e) ELSE @]
   /\ didx' = [didx EXCEPT ![d] = @ + 1]
-  /\ UNCHANGED <<heap, tbl, flt, mutex, nops, nextId, vers, pub, dpc, dsnap, dcls, dcont, dlo, dhi, results>> /\ UNCHANGED avars
+  /\ UNCHANGED <<heap, tbl, fe, flt, mutex, nops, nextId, vers, fvers, pub, dpc, dsnap, dfe, dcls, dfate, dname, dcont, dlo, dhi, results>>
+  /\ UNCHANGED avars
 
 DEnd(d) ==
   /\ dpc[d] = "run" /\ didx[d] = dsnap[d][2] /\ Quiet
   /\ dpc' = [dpc EXCEPT ![d] = "done"] /\ dhi' = [dhi EXCEPT ![d] = Len(vers)]
-  /\ UNCHANGED <<heap, tbl, flt, mutex, nops, nextId, vers, pub, dsnap, didx, dvis, dcls, dcont, dlo, results>> /\ UNCHANGED avars
+  /\ UNCHANGED <<heap, tbl, fe, flt, mutex, nops, nextId, vers, fvers, pub, dsnap, dfe, didx, dvis, dcls, dfate, dname, dcont, dlo, results>>
+  /\ UNCHANGED avars
 
 Next ==
   \/ \E a \in Admin : \/ \E o \in OpChoices : ABegin(a, o) \/ AUpd(a, o)
-                      \/ AWork(a) \/ AShift(a) \/ AStore(a)
-  \/ \E d \in Disp : (\E c \in Classes : DLoad(d, c)) \/ DVisit(d) \/ DEnd(d)
+                      \/ \E o \in FeChoices : AFeBegin(a, o)
+                      \/ AWork(a) \/ AShift(a) \/ AStore(a) \/ AFeStore(a)
+  \/ \E d \in Disp : (\E c \in Classes : DLoad(d, c)) \/ DFront(d) \/ DVisit(d) \/ DEnd(d)
 
 Spec == Init /\ [][Next]_vars
 
@@ -223,24 +302,27 @@ Spec == Init /\ [][Next]_vars
 \* the cells of ANY slice that was ever published never change (a dispatcher may have loaded it and
 \* still be iterating, however many operations ago that was); this includes every loaded snapshot
 SnapshotImmutable == /\ \A i \in 1..Len(pub) : Cells(pub[i].sl) = pub[i].cells
-                     /\ \A d \in Disp : dpc[d] = "run" => Cells(dsnap[d]) = dcont[d]
+                     /\ \A d \in Disp : dpc[d] \in {"front", "run"} => Cells(dsnap[d]) = dcont[d]
 
-\* every dispatch is processed against one complete version of the table
-Atomic == \A d \in Disp : dpc[d] = "done" => AtomicObs(dvis[d], dcls[d], dlo[d], dhi[d], vers)
+\* every dispatch is processed against one complete version of the WHOLE table: its fate (blacklisted / consumed by an
+\* aggregator / routed), its rewritten name and the routes it visited are those of ONE version between load and end
+Outcome(d) == [fate |-> dfate[d], rw |-> dname[d], rwobs |-> dfate[d] = "routed", vis |-> dvis[d]]
+Atomic == \A d \in Disp : dpc[d] = "done" => WholeObs(Outcome(d), dcls[d], dlo[d], dhi[d], vers, fvers)
 
 \* the consequence the statement spells out: an entry that exists (and accepts the
 \* metric) throughout the dispatch is delivered to exactly once
 NoSkipNoDup ==
   \A d \in Disp : dpc[d] = "done" =>
     \A e \in 1..MaxId :
-      (\A j \in dlo[d]..dhi[d] : e \in ToSet(Ids(vers[j])) /\ Accepts(FilterOf(vers[j], e), dcls[d]))
+      (\A j \in dlo[d]..dhi[d] : /\ e \in ToSet(Ids(vers[j])) /\ Accepts(FilterOf(vers[j], e), dcls[d])
+                                 /\ FateOf(fvers[j], dcls[d]) = "routed")
         => Cardinality({i \in 1..Len(dvis[d]) : dvis[d][i] = e}) = 1
 
 \* the published table is, at every moment, the result of the sequence of changes applied
-ViewOK == Content(tbl) = vers[Len(vers)]
+ViewOK == Content(tbl) = vers[Len(vers)] /\ fe = fvers[Len(fvers)]
 
 \* an operation is refused exactly when the sequential semantics say so
-ResultsOK == \A r \in results : r.err = OpErr(vers[r.v], r.op)
+ResultsOK == \A r \in results : r.err = OpErr(IF r.op.l = "main" THEN vers[r.v] ELSE fvers[r.v][r.op.l], r.op)
 
 TypeOK == /\ tbl[2] <= tbl[3] /\ tbl[3] <= Len(heap[tbl[1]])
           /\ \A d \in Disp : didx[d] <= dsnap[d][2]
